@@ -41,6 +41,13 @@ def post(ctx, cases, gores, model):
                 if tr:
                     lines.append((tr, payload))
     hooks = cov.get("input_distribution", {}).get("hooks.present", 0) > 0
+    dist = cov.get("input_distribution", {})
+    cov["window_continues_completed_inside_the_window"] = dist.get("window.inside", 0)
+    cov["window_continues_not_completed_while_parked"] = dist.get("window.missed", 0)
+    if hooks and dist.get("window.inside", 0) == 0:
+        ctx.notes.append("hooks are present but NO Continue completed while its thread was parked between 'marked suspended' and Wait "
+                         f"({dist.get('window.missed', 0)} attempts blocked): the window schedule was not exercised on this tree "
+                         "(e.g. the flag and the wait are one critical section there)")
     cov["hooks_present"] = hooks
     cov["traces_validated_against_impl"] = 0
     cov["handshake_events_replayed"] = 0
@@ -80,6 +87,16 @@ def post(ctx, cases, gores, model):
             checklib.violation(ctx, rp, f"handshake trace not accepted by the model or thread left parked: {res[i][0]}")
 
 
+ESTABLISHED_READS = {("scope", "Parent"), ("scope", "Name"), ("scope", "ToJSONObject"), ("ast", "Equals"), ("ext", "fmt.Sprintf[ast]"),
+                     ("debugger", "VisitState"), ("debugger", "VisitStepInState"), ("debugger", "VisitStepOutState"),
+                     ("debugger", "SetLockingState"), ("debugger", "SetThreadPool"), ("debugger", "RecordThreadFinished")}
+
+
+def denied(cat, detail):
+    return cat in ("scopepkg", "logger", "runtime", "astwrite", "rtwrite", "otherwrite", "pkgvarwrite") or \
+        (cat == "scope" and detail in ("SetValue", "SetLocalValue", "Clear", "NewChild"))
+
+
 def extract(ctx):
     """regenerate the fact debugger_is_read_only (lean/Ecal/Gen/C15.lean) from the type-checked source"""
     import re
@@ -91,9 +108,13 @@ def extract(ctx):
     unknown += ["not found: " + m for m in re.findall(r'\("([^"]+)", false\)', txt.split("def reachable")[0])]
     unres = txt.split("def unresolved")[1]
     unknown += ["unresolved: " + a + " in " + f for f, a in re.findall(r'\("([^"]*)", "([^"]*)"\)', unres)]
-    acc = re.findall(r'\("([^"]*)", "([^"]*)"\)', txt.split("def observerAccesses")[1].split("def ownWrites")[0])
+    acc = re.findall(r'\("([^"]*)", "([^"]*)", "([^"]*)"\)', txt.split("def observerAccesses")[1].split("def ownWrites")[0])
+    cov["fact_accesses"] = sorted(set(c + ":" + d for _, c, d in acc))
+    not_established = sorted(set(c + ":" + d for _, c, d in acc if (c, d) not in ESTABLISHED_READS and not denied(c, d)))
+    cov["fact_accesses_not_established"] = not_established
+    if not_established:
+        unknown.append("accesses neither denied nor established as reads: " + ", ".join(not_established))
     cov["fact_debugger_is_read_only"] = "unknown" if unknown else "established-or-refuted-by-lean (observer_accesses_allowed, own_writes_locked, own_reads_locked, visit_returns_nil, debugger_read_at_eval_time)"
-    cov["fact_accesses"] = sorted(set(a for _, a in acc))
     cov["fact_debugger_uses"] = sorted(set(a for _, a in re.findall(r'\("([^"]*)", "([^"]*)"\)', txt.split("def debuggerUses")[1].split("def debuggerFields")[0])))
     cov["fact_functions_reachable"] = len(re.findall(r'"', txt.split("def reachable")[1].split("\n")[0])) // 2
     if unknown:
